@@ -73,32 +73,35 @@ theorem goodC_init : GoodC p S w0 cs0 H cs0 :=
 theorem stepC_good (hs : SimpSound s) (hmem : cfg.maxMem + 32 ≤ p.memLimit) (hdep : 1024 ≤ p.maxDepth)
     (hcodes : ∀ a, w0.codeOf a = codeOf codes a) (hS : ∀ a prog, codeOf codes a = some prog → S a)
     (hcb : ∀ a prog, codeOf codes a = some prog → ∀ b ∈ prog, b < 256)
-    (hob : cfg.balances = true → OracleSound o) (hH : ∀ I, H I → cfg.balances = true → BalHyp I cfg w0) {cs : CState}
+    (hob : cfg.balances = true → OracleSound o)
+    (hH : ∀ I, H I → (cfg.balances = true → BalHyp I cfg w0) ∧ (cfg.sha3 = true → ShaInterp I p cfg))
+    (hnc : cfg.create = false) {cs : CState}
     (hg : GoodC p S w0 cs0 H cs) :
     (∀ cs' ∈ (stepC s o cfg codes cs).next, GoodC p S w0 cs0 H cs') ∧
     (∀ ce ∈ (stepC s o cfg codes cs).ends, GoodEndC p S w0 cs0 H ce) := by
   refine ⟨?_, ?_⟩
   · intro cs' hm I hI hHI f0 h0 hsat'
-    obtain ⟨ext, hp⟩ := stepC_next_path hm
+    obtain ⟨ext, hp⟩ := stepC_next_path hnc hm
     have hsat : Sat I cs.st.path := by rw [hp] at hsat'; exact (sat_append.1 hsat').1
     obtain ⟨w, f, kcs, hrel, hback⟩ := hg I hI hHI f0 h0 hsat
     obtain ⟨w', f', kcs', hrel', hb'⟩ :=
-      (stepC_sound (o := o) hs hI hmem hdep hcodes hS hcb (fun hbal => ⟨hob hbal, hH I hHI hbal⟩) hrel hsat).1 cs' hm
+      (stepC_sound (o := o) hs hI hmem hdep hcodes hS hcb (fun hbal => ⟨hob hbal, (hH I hHI).1 hbal⟩) (hH I hHI).2 hnc hrel hsat).1 cs' hm
         hsat'
     exact ⟨w', f', kcs', hrel', fun r hr => hback r (hb' r hr)⟩
   · intro ce hm htag h hout I hI hHI f0 h0 hsat'
-    have hsat : Sat I cs.st.path := by rw [← stepC_end_path hm]; exact hsat'
+    have hsat : Sat I cs.st.path := by rw [← stepC_end_path hnc hm]; exact hsat'
     obtain ⟨w, f, kcs, hrel, hback⟩ := hg I hI hHI f0 h0 hsat
     obtain ⟨w', hrun, hW⟩ := (stepC_sound (o := o) hs hI hmem hdep hcodes hS hcb
-      (fun hbal => ⟨hob hbal, hH I hHI hbal⟩) hrel hsat).2 ce hm htag h hout
+      (fun hbal => ⟨hob hbal, (hH I hHI).1 hbal⟩) (hH I hHI).2 hnc hrel hsat).2 ce hm htag h hout
     exact ⟨w', hback _ hrun, hW⟩
 
 /-- **exploreC_sound.** -/
 theorem exploreC_sound (hs : SimpSound s) (hmem : cfg.maxMem + 32 ≤ p.memLimit) (hdep : 1024 ≤ p.maxDepth)
     (hcodes : ∀ a, w0.codeOf a = codeOf codes a) (hS : ∀ a prog, codeOf codes a = some prog → S a)
     (hcb : ∀ a prog, codeOf codes a = some prog → ∀ b ∈ prog, b < 256)
-    (hob : cfg.balances = true → OracleSound o) (hH : ∀ I, H I → cfg.balances = true → BalHyp I cfg w0)
-    (fuel : Nat) : ∀ (steps : Nat) (wl : List CState) (acc : ResultC),
+    (hob : cfg.balances = true → OracleSound o)
+    (hH : ∀ I, H I → (cfg.balances = true → BalHyp I cfg w0) ∧ (cfg.sha3 = true → ShaInterp I p cfg))
+    (hnc : cfg.create = false) (fuel : Nat) : ∀ (steps : Nat) (wl : List CState) (acc : ResultC),
     (∀ cs ∈ wl, GoodC p S w0 cs0 H cs) → (∀ ce ∈ acc.ends, GoodEndC p S w0 cs0 H ce) →
     ∀ ce ∈ (exploreC s o cfg codes fuel steps wl acc).ends, GoodEndC p S w0 cs0 H ce := by
   induction fuel with
@@ -115,7 +118,7 @@ theorem exploreC_sound (hs : SimpSound s) (hmem : cfg.maxMem + 32 ≤ p.memLimit
       rw [exploreC_succ]
       split
       · exact ih _ _ _ (fun x hx => hwl x (List.mem_cons_of_mem _ hx)) hacc
-      · obtain ⟨hn, he⟩ := stepC_good (o := o) hs hmem hdep hcodes hS hcb hob hH (hwl cs (List.mem_cons_self ..))
+      · obtain ⟨hn, he⟩ := stepC_good (o := o) hs hmem hdep hcodes hS hcb hob hH hnc (hwl cs (List.mem_cons_self ..))
         refine ih _ _ _ ?_ ?_
         · intro x hx
           rcases List.mem_append.1 hx with hx | hx
@@ -129,6 +132,11 @@ theorem exploreC_sound (hs : SimpSound s) (hmem : cfg.maxMem + 32 ≤ p.memLimit
 end
 
 /-! ### completeness -/
+
+/-- the states the exploration can put on its worklist, starting from `cs0` -/
+inductive VisitedC (s : Simp) (o : Oracle) (cfg : Cfg) (codes : List (Nat × List Nat)) (cs0 : CState) : CState → Prop where
+  | start : VisitedC s o cfg codes cs0 cs0
+  | step {cs cs'} : VisitedC s o cfg codes cs0 cs → cs' ∈ (stepC s o cfg codes cs).next → VisitedC s o cfg codes cs0 cs'
 
 /-- the run reports that it did not explore everything -/
 def FlaggedC (res : ResultC) : Prop :=
@@ -180,35 +188,43 @@ theorem exploreC_complete (hs : SimpSound s) (ho : OracleSound o) (hmem : cfg.ma
     (hdep : 1024 ≤ p.maxDepth) (hcodes : ∀ a, w0.codeOf a = codeOf codes a)
     (hS : ∀ a prog, codeOf codes a = some prog → S a)
     (hcb : ∀ a prog, codeOf codes a = some prog → ∀ b ∈ prog, b < 256)
-    {I : Interp} (hI : I.Std) (hb : cfg.balances = true → BalHyp I cfg w0) {r : Evm.World × Evm.Halt} (fuel : Nat) :
-    ∀ (steps : Nat) (wl : List CState) (acc : ResultC),
+    {I : Interp} (hI : I.Std) (hb : cfg.balances = true → BalHyp I cfg w0)
+    (hsi : cfg.sha3 = true → ShaInterp I p cfg) (hnc : cfg.create = false) {cs0 : CState}
+    (hsok : ∀ cs, VisitedC s o cfg codes cs0 cs → ShaOK I s cfg cs) {r : Evm.World × Evm.Halt} (fuel : Nat) :
+    ∀ (steps : Nat) (wl : List CState) (acc : ResultC), (∀ cs ∈ wl, VisitedC s o cfg codes cs0 cs) →
     (∃ cs ∈ wl, Sat I cs.st.path ∧ ∃ w f kcs, RelC I p S w0 cs w f kcs ∧ RunStack p w f kcs r ∧
         BBAll (cfg.balances = true) w kcs) →
     CoveredC I S w0 r (exploreC s o cfg codes fuel steps wl acc) := by
   induction fuel with
   | zero =>
-    intro steps wl acc ⟨cs, hm, _⟩
+    intro steps wl acc _ ⟨cs, hm, _⟩
     cases wl with
     | nil => cases hm
     | cons cs1 wl => rw [exploreC_zero]; exact Or.inr (Or.inr (Or.inr rfl))
   | succ fuel ih =>
-    intro steps wl acc ⟨cs, hm, hsat, w, f, kcs, hrel, hrun, hbb⟩
+    intro steps wl acc hvis ⟨cs, hm, hsat, w, f, kcs, hrel, hrun, hbb⟩
     cases wl with
     | nil => cases hm
     | cons cs1 wl =>
       rw [exploreC_succ]
       split
       · exact exploreC_mono _ _ _ _ (Or.inr (Or.inr (Or.inl rfl)))
-      · rcases List.mem_cons.1 hm with rfl | hm
-        · rcases stepC_complete (o := o) hs ho hI hmem hdep hcodes hS hcb hb hrel hsat hrun hbb with
+      · have hvis' : ∀ x ∈ (stepC s o cfg codes cs1).next.reverse ++ wl, VisitedC s o cfg codes cs0 x := by
+          intro x hx
+          rcases List.mem_append.1 hx with hx | hx
+          · exact .step (hvis cs1 (List.mem_cons_self ..)) (List.mem_reverse.1 hx)
+          · exact hvis x (List.mem_cons_of_mem _ hx)
+        rcases List.mem_cons.1 hm with rfl | hm
+        · rcases stepC_complete (o := o) hs ho hI hmem hdep hcodes hS hcb hb hsi
+              (hsok _ (hvis _ (List.mem_cons_self ..))) hnc hrel hsat hrun hbb with
             ⟨cs', hm', hsat', w', f', kcs', hrel', hrun', hbb'⟩ | ⟨ce, hme, hcov⟩ | hb
-          · exact ih _ _ _ ⟨cs', List.mem_append_left _ (List.mem_reverse.2 hm'), hsat', w', f', kcs', hrel', hrun',
-              hbb'⟩
+          · exact ih _ _ _ hvis' ⟨cs', List.mem_append_left _ (List.mem_reverse.2 hm'), hsat', w', f', kcs', hrel',
+              hrun', hbb'⟩
           · exact exploreC_mono _ _ _ _ (Or.inl ⟨ce, List.mem_append_right _ hme, hcov⟩)
           · refine exploreC_mono _ _ _ _ (Or.inr (Or.inl ?_))
             simp only [ne_eq, List.append_eq_nil_iff, not_and]
             intro _; exact hb
-        · exact ih _ _ _ ⟨cs, List.mem_append_right _ hm, hsat, w, f, kcs, hrel, hrun, hbb⟩
+        · exact ih _ _ _ hvis' ⟨cs, List.mem_append_right _ hm, hsat, w, f, kcs, hrel, hrun, hbb⟩
 
 end
 
